@@ -1,1 +1,5 @@
 pub mod cp;
+pub mod dbgtree;
+pub mod spec;
+pub mod image;
+pub mod compare;
